@@ -20,9 +20,11 @@ os.unlink(junit)
 missing = [t for t in base['stable_pass'] if t not in passed]
 # wall-clock sensitive tests (twisted timers) can fail when the machine is heavily loaded: give the
 # ones that did not pass two more chances, on their own
-for attempt in range(2):
+import time as _t
+for attempt in range(6):
     if not missing or len(missing) > 15:
         break
+    _t.sleep(3 * attempt)
     ids = []
     for t in missing:
         cls, name = t.split('::')
